@@ -15,7 +15,7 @@ def main():
                     choices=["quick", "thorough"])
     ap.add_argument("--replay")
     a = ap.parse_args()
-    os.chdir("/verif")
+    os.chdir(os.environ.get("VERIF_HOME", "/verif"))      # VERIF_HOME: a development copy of this directory
     try:
         from loguru import logger
         logger.remove()
